@@ -902,6 +902,41 @@ def r11_attributes_set_before_construction(ctx, res):
     if n < 10:
         raise AnalysisError(f'only {n} attribute dicts handed to element constructors in the writer functions')
 
+def r12_preserved_text_is_written_as_preserved(ctx, res):
+    """the reader leaves the text of an element un-normalised when it carries xml:space="preserve" and keeps that attribute in the
+    element dict (key _XMLSPACEATTR): a resource load() returns can therefore hold text with runs of blanks / line breaks.  The
+    builder that writes the text of such an element must write the attribute back, or the reload normalises the text and
+    load(dump(R)) != R.  Every builder that sets `elem.text` from the element's 'text' reads _XMLSPACEATTR (itself or in a helper)."""
+    from .c03 import _writer_functions
+    n = 0
+    lmf = ctx.repo.mod('lmf')
+    reader_keeps = any(isinstance(x, ast.Name) and x.id == '_XMLSPACEATTR' for f in lmf.funcs.values() if f.name in ('end', 'start', '_make_parser')
+                       or 'make_parser' in f.qualname for x in ast.walk(f.node))
+    if not reader_keeps:
+        raise AnalysisError('the reader no longer consults _XMLSPACEATTR (anchor of C02-R12 vanished)')
+    for f in _writer_functions(ctx):
+        sets_text = [x for x in walk_no_nested(f.node) if isinstance(x, ast.Assign) and len(x.targets) == 1
+                     and isinstance(x.targets[0], ast.Attribute) and x.targets[0].attr == 'text'
+                     and any(isinstance(s_, ast.Subscript) and isinstance(s_.slice, ast.Constant) and s_.slice.value == 'text' for s_ in ast.walk(x.value))]
+        if not sets_text:
+            continue
+        n += 1
+        key = f'xml-space:{f.qualname}'
+        reads = any(isinstance(x, ast.Name) and x.id == '_XMLSPACEATTR' for x in ast.walk(f.node))
+        if not reads:
+            for call, cal in ctx.cg.callees(f):
+                for c in cal:
+                    if c.module.short == 'lmf' and any(isinstance(x, ast.Name) and x.id == '_XMLSPACEATTR' for x in ast.walk(c.node)):
+                        reads = True
+        res.inst(key, f.module.loc(sets_text[0]), f'writes element text; consults xml:space: {reads}')
+        if not reads:
+            res.find(key, f.module.loc(sets_text[0]),
+                     f'{f.qualname} writes the text of an element without its xml:space attribute: text loaded under xml:space="preserve" '
+                     f'(runs of blanks, line breaks) is written as ordinary text and normalised on reload - load(dump(R)) != R, and '
+                     f'dumping again gives different bytes')
+    if n < 5:
+        raise AnalysisError(f'only {n} builders that write element text found')
+
 RULES = [
     ('C02-R1', r1_tables, 40),
     ('C02-R2', r2_model_reader, 70),
@@ -914,4 +949,5 @@ RULES = [
     ('C02-R9', r9_encoding, 6),
     ('C02-R10', r10_no_truth_test_of_elements, 10),
     ('C02-R11', r11_attributes_set_before_construction, 10),
+    ('C02-R12', r12_preserved_text_is_written_as_preserved, 5),
 ]
